@@ -583,7 +583,40 @@ func genOnceScenario(c *gctx) {
 		}
 		switch k {
 		case 0:
-			c.sc.Ops = append(c.sc.Ops, Op{Kind: "redefine", Target: base.Target, Defaults: base.Defaults, Opts: base.Opts})
+			ro := base.Opts
+			if r.chance(60) {
+				// only the types of directly supplied values may be inputs: the plan
+				// must go through the converters
+				var subs []Flt
+				for _, o := range base.Opts {
+					for _, v := range o.Vals {
+						if v != nil {
+							subs = append(subs, Flt{Kind: 0, Ty: v.Ty})
+						}
+					}
+				}
+				ro = append(append([]Opt(nil), base.Opts...), Opt{Kind: "filterin", Flt: &Flt{Kind: 1, Subs: subs}})
+			}
+			c.sc.Ops = append(c.sc.Ops, Op{Kind: "redefine", Target: base.Target, Defaults: base.Defaults, Opts: ro})
+		case 1:
+			// call one of the converters directly (a run-once one hands out its memo)
+			var cand []int
+			for i, d := range c.sc.Funcs {
+				nilres := false
+				for _, b := range c.sc.Beh {
+					if b.Fid == d.ID && b.Kind == 2 {
+						nilres = true // the model does not represent a nil *struct as a target's raw result
+					}
+				}
+				if i != base.Target && !d.Built && len(d.Out) > 0 && !nilres {
+					cand = append(cand, i)
+				}
+			}
+			if len(cand) > 0 && r.chance(50) {
+				c.sc.Ops = append(c.sc.Ops, Op{Kind: "call", Target: cand[r.intn(len(cand))], Opts: base.Opts})
+				continue
+			}
+			c.sc.Ops = append(c.sc.Ops, base)
 		default:
 			o := base
 			if r.chance(30) && len(o.Opts) > 1 {
